@@ -199,11 +199,15 @@ def check_2d(ctx, m, rng, full=True, lite=False):
     mask = aa.Mask2D(mask=m.copy(), pixel_scales=(1.0, 2.0))
     idx = np.arange(H * W, dtype=float).reshape(H, W)
     # unique per-cell values (negative set second); masked cells of native inputs carry garbage
-    for sign in ((1.0, -1.0) if full else (1.0,)):
-        nat = sign * (1.0 + idx + 0.25 * rng.random((H, W)))
+    for sign in ((1.0, -1.0, "int") if full else (1.0,)):
+        if sign == "int":
+            nat = (1 + 3 * idx).astype(np.int64)          # integer-typed values (counts, labels): same claims, compared by value
+            ctx.classes["integer_typed_values"] += 1
+        else:
+            nat = sign * (1.0 + idx + 0.25 * rng.random((H, W)))
         exp_slim = nat[~m]
         exp_nat = np.where(m, 0.0, nat)
-        gnat = np.stack([nat, -3.0 * nat + 0.5], axis=-1)
+        gnat = np.stack([nat, -3 * nat + 1], axis=-1) if sign == "int" else np.stack([nat, -3.0 * nat + 0.5], axis=-1)
         gexp_slim = gnat[~m]
         gexp_nat = np.where(m[:, :, None], 0.0, gnat)
         for store_native in (False, True):
